@@ -255,6 +255,8 @@ def run(ctx):
         def corrupt(r):
             if r.get("k") == "construct" and r["res"].get("ok"):
                 return dict(r, res=dict(r["res"], dim=r["res"]["dim"] + 1))
+            if r.get("k") == "iter" and isinstance(r["res"], list) and r["res"]:
+                return dict(r, res=r["res"][:-1])       # (used when constructions cannot be observed completely)
             return None
         if clean and acc == len(clean):
             ctx.binding_demo("Trace_GraphStruct", "Trace_GraphStruct.cfg", clean, corrupt, limit=60)
